@@ -397,3 +397,7 @@ def run(repo: Repo, rep: Report, tier: str) -> None:
     from .memo import memo_rule
 
     memo_rule(repo, rep, "C06.R12")
+    from .c02 import default_substitution_rule
+
+    # a bit-field whose value is 0 is written as 0: only a missing value (None) is replaced by the type's default
+    default_substitution_rule(repo, rep, "C06.R13")
